@@ -1,8 +1,4 @@
 // C18 spec functions (hand-written: the formulas are characterisations of the pinned code, the bounds come from the property)
-/// A-MEMO: micro-ERG per DOSC at a height: t(0) = 10^6, t(h+1) = max(t(h)+1, t(h) + t(h)/2000000)
-pub open spec fn spec_microergs(h: nat) -> nat decreases h {
-    if h == 0 { 1_000_000 } else { let l = spec_microergs((h - 1) as nat); if l + 1 >= l + l / 2_000_000 { l + 1 } else { l + l / 2_000_000 } }
-}
 pub open spec fn spec_dosc_to_erg(h: nat, dosc: int) -> int { (dosc * spec_microergs(h)) / 1_000_000 }
 pub open spec fn spec_work(difficulty: nat, tip910: bool) -> int {
     let w = pow(2, difficulty); if tip910 { if w * 100 > u128::MAX { u128::MAX as int } else { w * 100 } } else { w }
